@@ -377,6 +377,11 @@ func (x *nsExec) admitPH(n *nsNode, p nsPos, ph tmconsensus.ProposedHeader) (str
 		if h == p.VH+1 && nsExcl(nsFA4) {
 			return nsFA4, false
 		}
+		if h == p.VH+1 && p.VH == p.SH && ph.Header.PrevCommitProof.Round == p.VR+1 && nsEx(nsFA5) {
+			// The mirror files the proof's precommits under its next-round view:
+			// a commit proof is a > 2/3 precommit for one target, i.e. the A5 situation.
+			return nsFA5, false
+		}
 		if h == p.VH+1 && p.VH == p.SH {
 			// A4 is repaired: a proposal for the next height may carry the commit of the
 			// voting height (catch-up through the previous-commit proof). The machine is
